@@ -656,6 +656,31 @@ def scen_file_becomes_parent(rng):
     return {'tree': [[d, 'dir']] if pre else [], 'funcs': funcs, 'steps': steps}
 
 
+def scen_olddir_becomes_target(rng):
+    """a DIRECTORY the previous build created is replaced by the user with a regular file, and the next build uses
+    that very path as a build_file target (overwriting the user's file) - and then fails, or succeeds and is cleaned"""
+    d = rng.choice(NAMES)
+    sub = '%s/%s' % (d, rng.choice(NAMES))
+    x = '%s/%s' % (sub, rng.choice(NAMES))
+    funcs = [
+        _fn('f0', [['if', ['arg', _e(0)], [_bf(x, 1, catch=True, cmp_=rng.choice('MH'))],
+                    [_bf(sub, 1, arg=1, catch=True, cmp_=rng.choice('MH'))] + _probe(rng, [d, sub, x, ''], 2)]]),
+        _fn('f1', [['w', None]]),
+    ]
+    funcs.append(_fn('rootfail', funcs[0]['stmts'] + [['raise', 99]]))
+    steps = [_build(arg=0), ['mut', 'rmtree', sub, None, None], ['mut', 'write', sub, 'the user\'s file', 6300]]
+    tail = rng.choice(['fail', 'fail', 'fail_then_build', 'build_clean', 'build_fail'])
+    if tail == 'fail':
+        steps += [_build(arg=1, root=2)]
+    elif tail == 'fail_then_build':
+        steps += [_build(arg=1, root=2), _build(arg=1), ['clean', 'n']]
+    elif tail == 'build_clean':
+        steps += [_build(arg=1), ['clean', 'n']]
+    else:
+        steps += [_build(arg=1), _build(arg=0, root=2), _build(arg=0)]
+    return {'tree': [[d, 'dir']] if rng.random() < 0.5 else [], 'funcs': funcs, 'steps': steps}
+
+
 def scen_selfread(rng):
     """a build_file function that looks at its own target while it is writing it (the target is invisible to it:
     FileNotFoundError), writes it in two steps, and is later read back by a sibling - with HASH nothing may be
@@ -676,7 +701,7 @@ def scen_selfread(rng):
     return {'tree': [], 'funcs': funcs, 'steps': steps}
 
 
-SCENARIOS = [scen_nested_failure, scen_swap, scen_stale_dir, scen_dups, scen_versions, scen_reads, scen_identity, scen_foreign_swap, scen_sibling_failure, scen_todir, scen_selfread, scen_file_becomes_parent]
+SCENARIOS = [scen_nested_failure, scen_swap, scen_stale_dir, scen_dups, scen_versions, scen_reads, scen_identity, scen_foreign_swap, scen_sibling_failure, scen_todir, scen_selfread, scen_file_becomes_parent, scen_olddir_becomes_target]
 
 
 def gen_scenario_cases(seed, per_family, dirsize=4096, families=SCENARIOS):
